@@ -6,6 +6,15 @@
 //     entry (p,q): rank p's interface map has key q with InterfaceInformation pair (first, second)
 //     size[p][i] = number of items the handle of rank p reports/gathers for local index i
 //     seed = schedule seed for harness/common/pmpi_sched.c (0 = no perturbation)
+//   optional trailing fields  v t mb  (default 0 0 0):
+//     v  = API path: 0 ctor(MPI_Comm, map, buf); 1 ctor(MPI_Comm, map) [default buffer]; 2 ctor(Interface, buf);
+//          3 ctor(Interface) [default buffer]; 4 copy-constructed communicator (original destroyed first);
+//          5 copy-assigned over a communicator with another map/buffer, plus self-assignment;
+//          6 the same object used twice (a warm-up communication in the opposite direction first);
+//          7 VariableSizeCommunicator<non-default Allocator>
+//     t  = DataType of the handle: 0 long, 1 double, 2 int, 3 a POD struct (generic MPITraits), 4 std::pair<int,double>
+//     mb = value of DUNE_PARALLEL_MAX_COMMUNICATION_BUFFER_SIZE the binary must have been compiled with (0: undefined);
+//          a case whose mb differs from the binary's prints BADCASE
 // Output: ONE line per case, printed by rank 0:
 //   R0 <src>><idx>:<n>:<item>.<item>... ... ; R1 ... || <p>><q>:<len>.<len>... ...
 //   left of "||": per rank the scatter calls with n > 0, stably grouped by the source rank decoded from the
@@ -26,6 +35,7 @@
 #include <string>
 #include <vector>
 #include <unistd.h>
+#include <dune/common/parallel/interface.hh>
 #include <dune/common/parallel/variablesizecommunicator.hh>
 
 extern "C" {
@@ -48,9 +58,21 @@ static void on_alarm(int)
 
 struct Call { long idx, n; std::vector<long> items; };
 
+struct Pod { int v; unsigned char tag; };
+template<class T> struct Codec { static T enc(long c) { return (T) c; } static long dec(const T& x) { return (long) x; } };
+template<> struct Codec<Pod> {
+  static Pod enc(long c) { Pod p; std::memset(&p, 0, sizeof p); p.v = (int) c; p.tag = (unsigned char)(c % 251); return p; }
+  static long dec(const Pod& p) { return p.tag == (unsigned char)(p.v % 251) ? (long) p.v : -7; }
+};
+template<> struct Codec<std::pair<int,double> > {
+  static std::pair<int,double> enc(long c) { return std::make_pair((int) c, 0.5 * (double) c); }
+  static long dec(const std::pair<int,double>& p) { return p.second == 0.5 * (double) p.first ? (long) p.first : -7; }
+};
+
+template<class T>
 struct RecHandle
 {
-  typedef long DataType;
+  typedef T DataType;
   bool fixed;
   int rank;
   std::vector<long> sizes;       // per local index
@@ -60,18 +82,18 @@ struct RecHandle
   template<class B> void gather(B& buf, std::size_t i)
   {
     long n = (long) size(i);
-    for (long k = 0; k < n; ++k) buf.write(rank * 1000000L + (long) i * 1000L + k);
+    for (long k = 0; k < n; ++k) buf.write(Codec<T>::enc(rank * 1000000L + (long) i * 1000L + k));
   }
   template<class B> void scatter(B& buf, std::size_t i, std::size_t n)
   {
     Call c; c.idx = (long) i; c.n = (long) n;
-    if (n <= 4096) for (std::size_t k = 0; k < n; ++k) { long v; buf.read(v); c.items.push_back(v); }
+    if (n <= 4096) for (std::size_t k = 0; k < n; ++k) { T v; buf.read(v); c.items.push_back(Codec<T>::dec(v)); }
     log.push_back(c);
   }
 };
 
 struct Entry { int p, q; std::vector<long> first, second; };
-struct Case { int P, mode, dir; long buf; unsigned long long seed; int NI; std::vector<Entry> es; std::vector<std::vector<long> > sz; };
+struct Case { int P, mode, dir; long buf; unsigned long long seed; int NI; std::vector<Entry> es; std::vector<std::vector<long> > sz; int v = 0, t = 0; long mb = 0; };
 
 static bool parse(const std::string& line, Case& c)
 {
@@ -86,7 +108,110 @@ static bool parse(const std::string& line, Case& c)
   }
   c.sz.assign(c.P, std::vector<long>(c.NI));
   for (auto& r : c.sz) for (auto& x : r) is >> x;
-  return !is.fail();
+  if (is.fail()) return false;
+  if (!(is >> c.v >> c.t >> c.mb)) { c.v = 0; c.t = 0; c.mb = 0; }
+  return true;
+}
+
+#ifdef DUNE_PARALLEL_MAX_COMMUNICATION_BUFFER_SIZE
+static const long BINARY_MB = DUNE_PARALLEL_MAX_COMMUNICATION_BUFFER_SIZE;
+#else
+static const long BINARY_MB = 0;
+#endif
+
+// a stateless non-default allocator
+template<class U> struct CountingAlloc {
+  typedef U value_type;
+  CountingAlloc() {}
+  template<class V> CountingAlloc(const CountingAlloc<V>&) {}
+  U* allocate(std::size_t n) { return static_cast<U*>(::operator new(n * sizeof(U))); }
+  void deallocate(U* p, std::size_t) { ::operator delete(p); }
+  template<class V> bool operator==(const CountingAlloc<V>&) const { return true; }
+  template<class V> bool operator!=(const CountingAlloc<V>&) const { return false; }
+};
+
+struct OpenInterface : public Dune::Interface {
+  OpenInterface(MPI_Comm c) : Dune::Interface(c) {}
+  using Dune::Interface::interfaces;
+};
+
+template<class Map>
+static void fill_map(Map& imap, const Case& c, int rank)
+{
+  for (auto& e : c.es) if (e.p == rank) {
+    auto& pr = imap[e.q];
+    pr.first.reserve(e.first.size() + 1);  for (long x : e.first) pr.first.add((std::size_t) x);
+    pr.second.reserve(e.second.size() + 1); for (long x : e.second) pr.second.add((std::size_t) x);
+    // read back through the non-const accessors and the comparison operators of InterfaceInformation
+    bool okrb = pr.first.size() == e.first.size() && pr.second.size() == e.second.size();
+    for (std::size_t k = 0; okrb && k < e.first.size(); ++k) okrb = (pr.first[k] == (std::size_t) e.first[k]);
+    for (std::size_t k = 0; okrb && k < e.second.size(); ++k) okrb = (pr.second[k] == (std::size_t) e.second[k]);
+    okrb = okrb && (pr.first == pr.first) && !(pr.first != pr.first) && ((pr.first == pr.second) == (e.first == e.second))
+           && ((pr.first != pr.second) == (e.first != e.second));
+    if (!okrb) { std::fprintf(stderr, "ERROR C06-INTERFACE-READBACK rank=%d neighbour=%d\n", rank, e.q); _exit(87); }
+  }
+}
+template<class Map> static void free_map(Map& imap) { for (auto& kv : imap) { kv.second.first.free(); kv.second.second.free(); } }
+
+template<class VSC, class H>
+static void communicate(VSC& comm, H& h, const Case& c, int tmo)
+{
+  alarm(tmo);
+  pmpi_sched_reseed(c.seed);
+  pmpi_sched_trace(1);
+  if (c.dir == 0) comm.forward(h); else comm.backward(h);
+  pmpi_sched_trace(0);
+  pmpi_sched_reseed(0);
+  alarm(0);
+}
+
+template<class T>
+static void run_case(const Case& c, int rank, MPI_Comm cm, int tmo, std::vector<long>& ser, std::vector<long>& tr)
+{
+  typedef Dune::VariableSizeCommunicator<> VSC;
+  RecHandle<T> h; h.fixed = (c.mode == 0); h.rank = rank; h.sizes = c.sz[rank];
+  const std::size_t buf = (std::size_t) c.buf;
+  if (c.v == 2 || c.v == 3) {
+    OpenInterface iface(cm);
+    fill_map(iface.interfaces(), c, rank);
+    const Dune::Interface& ci = iface;
+    if (c.v == 2) { VSC comm(ci, buf); communicate(comm, h, c, tmo); }
+    else          { VSC comm(ci);      communicate(comm, h, c, tmo); }
+    // ~Interface frees the index arrays
+  } else if (c.v == 7) {
+    typedef Dune::VariableSizeCommunicator<CountingAlloc<std::pair<Dune::InterfaceInformation,Dune::InterfaceInformation> > > AVSC;
+    typename AVSC::InterfaceMap imap;
+    fill_map(imap, c, rank);
+    { AVSC comm(cm, imap, buf); communicate(comm, h, c, tmo); }
+    free_map(imap);
+  } else {
+    VSC::InterfaceMap imap;
+    fill_map(imap, c, rank);
+    if (c.v == 1) { VSC comm(cm, imap); communicate(comm, h, c, tmo); }
+    else if (c.v == 4) {
+      VSC* orig = new VSC(cm, imap, buf);
+      VSC copy(*orig);
+      delete orig;                       // the copy owns its own duplicated communicator
+      communicate(copy, h, c, tmo);
+    } else if (c.v == 5) {
+      VSC::InterfaceMap other;           // an unrelated (empty) interface and a useless buffer size
+      VSC a(cm, imap, buf);
+      VSC b(cm, other, 1);
+      b = a;
+      VSC& br = b; b = br;               // self-assignment must leave it intact
+      communicate(b, h, c, tmo);
+    } else if (c.v == 6) {
+      VSC comm(cm, imap, buf);
+      { RecHandle<T> warm = h; Case w = c; w.dir = 1 - c.dir; w.seed = c.seed ? c.seed + 1 : 0; communicate(comm, warm, w, tmo); }
+      communicate(comm, h, c, tmo);      // trace restarts: only the second communication is observed
+    } else { VSC comm(cm, imap, buf); communicate(comm, h, c, tmo); }
+    free_map(imap);
+  }
+  for (auto& cl : h.log) { ser.push_back(cl.idx); ser.push_back(cl.n); ser.push_back((long) cl.items.size()); for (long v : cl.items) ser.push_back(v); }
+  std::vector<int> t(3 * 4096);
+  int nt = pmpi_sched_trace_get(t.data(), 4096);
+  if (nt > 4096) nt = 4096;
+  for (int i = 0; i < nt; ++i) if (t[3*i+1] == 933399) { tr.push_back(t[3*i]); tr.push_back(t[3*i+2]); }
 }
 
 int main(int argc, char** argv)
@@ -102,37 +227,20 @@ int main(int argc, char** argv)
   for (int P = 1; P <= np; ++P) MPI_Comm_split(MPI_COMM_WORLD, rank < P ? 0 : MPI_UNDEFINED, rank, &sub[P]);
   std::ifstream in(argv[1]);
   std::string line;
-  typedef Dune::VariableSizeCommunicator<> VSC;
   while (std::getline(in, line)) {
     ++g_case;
     Case c;
-    bool ok = parse(line, c) && c.P >= 1 && c.P <= np;
+    bool ok = parse(line, c) && c.P >= 1 && c.P <= np && c.mb == BINARY_MB && c.v >= 0 && c.v <= 7 && c.t >= 0 && c.t <= 4;
     std::vector<long> ser;           // serialised log of this rank: idx n nitems items...
     std::vector<long> tr;            // dest count pairs
     if (ok && rank < c.P) {
-      VSC::InterfaceMap imap;
-      for (auto& e : c.es) if (e.p == rank) {
-        auto& pr = imap[e.q];
-        pr.first.reserve(e.first.size() + 1);  for (long x : e.first) pr.first.add((std::size_t) x);
-        pr.second.reserve(e.second.size() + 1); for (long x : e.second) pr.second.add((std::size_t) x);
+      switch (c.t) {
+        case 1: run_case<double>(c, rank, sub[c.P], tmo, ser, tr); break;
+        case 2: run_case<int>(c, rank, sub[c.P], tmo, ser, tr); break;
+        case 3: run_case<Pod>(c, rank, sub[c.P], tmo, ser, tr); break;
+        case 4: run_case<std::pair<int,double> >(c, rank, sub[c.P], tmo, ser, tr); break;
+        default: run_case<long>(c, rank, sub[c.P], tmo, ser, tr);
       }
-      RecHandle h; h.fixed = (c.mode == 0); h.rank = rank; h.sizes = c.sz[rank];
-      {
-        VSC comm(sub[c.P], imap, (std::size_t) c.buf);
-        alarm(tmo);
-        pmpi_sched_reseed(c.seed);
-        pmpi_sched_trace(1);
-        if (c.dir == 0) comm.forward(h); else comm.backward(h);
-        pmpi_sched_trace(0);
-        pmpi_sched_reseed(0);
-        alarm(0);
-      }
-      for (auto& kv : imap) { kv.second.first.free(); kv.second.second.free(); }
-      for (auto& cl : h.log) { ser.push_back(cl.idx); ser.push_back(cl.n); ser.push_back((long) cl.items.size()); for (long v : cl.items) ser.push_back(v); }
-      std::vector<int> t(3 * 4096);
-      int nt = pmpi_sched_trace_get(t.data(), 4096);
-      if (nt > 4096) nt = 4096;
-      for (int i = 0; i < nt; ++i) if (t[3*i+1] == 933399) { tr.push_back(t[3*i]); tr.push_back(t[3*i+2]); }
     }
     // collect on world rank 0 (blocking collectives; a lost rank shows up as a hang of this step)
     alarm(tmo);
